@@ -18,6 +18,8 @@ pub(crate) struct Lexer {
     /// If the input this lexer is spanned over is larger than the original span.
     /// This is possible due to interpolation.
     is_expanded: bool,
+    #[cfg(grass_verif)]
+    fuel: std::cell::Cell<u64>,
 }
 
 impl Lexer {
@@ -68,21 +70,29 @@ impl Lexer {
     }
 
     pub fn peek(&self) -> Option<Token> {
+        #[cfg(grass_verif)]
+        crate::verif::lexer_tick(&self.fuel, self.buf.len());
         self.buf.get(self.cursor).copied()
     }
 
     /// Peeks the previous token without modifying the peek cursor
     pub fn peek_previous(&mut self) -> Option<Token> {
+        #[cfg(grass_verif)]
+        crate::verif::lexer_tick(&self.fuel, self.buf.len());
         self.buf.get(self.cursor.checked_sub(1)?).copied()
     }
 
     /// Peeks `n` from current peeked position without modifying cursor
     pub fn peek_n(&self, n: usize) -> Option<Token> {
+        #[cfg(grass_verif)]
+        crate::verif::lexer_tick(&self.fuel, self.buf.len());
         self.buf.get(self.cursor + n).copied()
     }
 
     /// Peeks `n` behind current peeked position without modifying cursor
     pub fn peek_n_backwards(&self, n: usize) -> Option<Token> {
+        #[cfg(grass_verif)]
+        crate::verif::lexer_tick(&self.fuel, self.buf.len());
         self.buf.get(self.cursor.checked_sub(n)?).copied()
     }
 
@@ -100,6 +110,8 @@ impl Iterator for Lexer {
     type Item = Token;
 
     fn next(&mut self) -> Option<Self::Item> {
+        #[cfg(grass_verif)]
+        crate::verif::lexer_tick(&self.fuel, self.buf.len());
         self.buf.get(self.cursor).copied().map(|tok| {
             self.cursor += 1;
             tok
@@ -169,6 +181,8 @@ impl Lexer {
             cursor: 0,
             entire_span,
             is_expanded,
+            #[cfg(grass_verif)]
+            fuel: std::cell::Cell::new(0),
         }
     }
 }
